@@ -61,7 +61,47 @@ def conformance(ctx):
     return [(f"C15:refsched:{fp}", d) for fp, d in refsched.conformance(ctx)]
 
 
-MONITORS = [blocks, conformance]
+def idle_tail(ctx):
+    """A channel left in EOM mode idles at the off-detuning of its current setpoint for as long as the sequence is extended
+    (other channels running longer, sample(extended_duration=...)): sampled with the public sampler, whatever the last slot is."""
+    if ctx.exc is not None or not ctx.post.flags["building"]:
+        return []
+    open_ch = {n: ch for n, ch in ctx.post.channels.items() if ch.eom_blocks and ch.eom_blocks[-1][4] is None and ch.slots}
+    if not open_ch:
+        return []
+    import warnings
+
+    from pulser.sampler import sample
+
+    T = max(c.end for c in ctx.post.channels.values())
+    out = []
+    with warnings.catch_warnings():
+        warnings.simplefilter("ignore")
+        try:
+            ss = sample(ctx.seq, extended_duration=T + 37)
+        except Exception:
+            return []  # sampling as such is C06's subject
+    for n, ch in open_ch.items():
+        if n not in ss.channel_samples:
+            continue
+        cs = ss.channel_samples[n]
+        det = np.asarray(cs.det.as_array(detach=True) if hasattr(cs.det, "as_array") else cs.det, dtype=float)
+        amp = np.asarray(cs.amp.as_array(detach=True) if hasattr(cs.amp, "as_array") else cs.amp, dtype=float)
+        if len(det) != T + 37:
+            continue
+        off = ch.eom_blocks[-1][2]
+        ctx.act["open_eom_tails_sampled"] += 1
+        if ch.slots[-1].kind == "pulse" and not ch.slots[-1].pulse.detuned_delay:
+            ctx.act["open_eom_tails_after_a_pulse"] += 1
+        tail_d, tail_a = det[ch.end:], amp[ch.end:]
+        if np.abs(tail_d - off).max() > 1e-9 or np.abs(tail_a).max() > 1e-12:
+            last = "pulse" if ch.slots[-1].kind == "pulse" and not ch.slots[-1].pulse.detuned_delay else "idle"
+            out.append((f"C15:idle-tail-not-at-off-detuning:after-{last}", f"{n}: idle from {ch.end} to {T + 37} sampled at detuning {tail_d[0]:.6g} "
+                        f"(amp {tail_a.max():.3g}), off-detuning of the open block {off:.6g}"))
+    return out
+
+
+MONITORS = [blocks, conformance, idle_tail]
 
 
 # ---- (b) ------------------------------------------------------------------------------------------
